@@ -878,17 +878,21 @@ def _minimize(generation_result, algorithm=None):
                 == config.MinimizationDirection.FORWARD
             ):
                 iterative_minimizer: pp.IterativeMinimizationVisitor = (
-                    pp.ForwardIterativeMinimizationVisitor(fitness_functions)
+                    pp.ForwardIterativeMinimizationVisitor(fitness_functions, algorithm.executor)
                 )
             else:
-                iterative_minimizer = pp.BackwardIterativeMinimizationVisitor(fitness_functions)
+                iterative_minimizer = pp.BackwardIterativeMinimizationVisitor(
+                    fitness_functions, algorithm.executor
+                )
 
             # Check if we should use the combined minimization approach
             if (
                 config.configuration.test_case_output.minimization.test_case_minimization_strategy
                 == config.MinimizationStrategy.COMBINED
             ):
-                combined_minimizer = pp.CombinedMinimizationVisitor(fitness_functions)
+                combined_minimizer = pp.CombinedMinimizationVisitor(
+                    fitness_functions, algorithm.executor
+                )
                 generation_result.accept(combined_minimizer)
 
                 _LOGGER.info(
